@@ -39,6 +39,15 @@ def main(argv=None):
         check = Check(prop, ns.tier, LEVELS.get(prop, 'other'), seed)
         check.no_selftest = ns.no_selftest or bool(ns.repo) or bool(os.environ.get('VERIF_NO_SELFTEST'))
         mod.run(repo, check)
+        if ns.tier == 'thorough' and not check.no_selftest and not ns.replay:
+            # self-validation of the rules on scratch copies (reported in the evidence; never changes the verdict on /repo)
+            from sa import selftest
+            st = selftest.run_for(prop)
+            check.coverage_extra = dict(getattr(check, 'coverage_extra', {}) or {})
+            check.coverage_extra['self_validation'] = st
+            print('self-validation: %d/%d mutants detected, %d/%d twins silent%s%s' % (
+                st.get('mutants_detected', 0), st.get('mutants', 0), st.get('twins_silent', 0), st.get('twins', 0),
+                '; survivors %s' % st['survivors'] if st.get('survivors') else '', '; noisy twins %s' % st['noisy_twins'] if st.get('noisy_twins') else ''))
         if ns.replay:
             with open(ns.replay) as f:
                 want = json.load(f)['finding']['ident']
